@@ -1429,13 +1429,17 @@ func ruleR45(c *Ctx) {
 	p := c.P
 	for _, pk := range p.Target {
 		sp := shortPkg(pk.PkgPath)
-		if !(sp == "pkg/data" || sp == "schema" || sp == "bpmn" || sp == "pkg/expression") {
-			continue
-		}
 		scope := pk.Types.Scope()
 		for _, name := range scope.Names() {
 			v, ok := scope.Lookup(name).(*types.Var)
 			if !ok {
+				continue
+			}
+			// a package-level sync.Map is a cache by construction: whatever it holds is shared by every instance
+			// (and every goroutine) of the program — a memoised expression engine, a parsed interval that a timer
+			// then completes in place
+			if isNamed(v.Type(), "sync", "Map") {
+				c.Bad(nil, nil, "package variable "+sp+"."+name, "no package-level cache in the engine packages: objects handed out of a process-wide sync.Map are shared between instances and goroutines, so per-use state written into them (an engine's variable environment, the start time filled into a parsed interval) leaks from one use into the next", "package-level sync.Map "+name)
 				continue
 			}
 			switch v.Type().Underlying().(type) {
